@@ -18,7 +18,7 @@ def run(ctx, out):
     ex = R.run_run(ctx, out, 'C17', G, report=G)
     # the same harness with the REAL load::read parsing manifest text (only file reading and the log file are modelled)
     if ctx.quick():
-        ex2 = R.run_run(ctx, out, 'C17', G, report=G, real_read=True, g1s=('plain',), g2s=('same', 'renamed', 'grown'))
+        ex2 = R.run_run(ctx, out, 'C17', G, report=G, real_read=True, g1s=('plain',), g2s=('same', 'renamed', 'grown2'))
     else:
         ex2 = R.run_run(ctx, out, 'C17', G, report=G, real_read=True)
     ex.paths += ex2.paths
